@@ -343,6 +343,51 @@ func ruleLintNilPart(c *Ctx, r *Rep) {
 						guarded = true
 					}
 				}
+				if !guarded {
+					// a helper that receives the artifact: every call site must be behind the nil test of that part
+					if prm, isParam := pl.base.(*ssa.Parameter); isParam {
+						idx := -1
+						for i, p := range fn.Params {
+							if p == prm {
+								idx = i
+							}
+						}
+						sites, all := 0, true
+						for _, caller := range c.Funcs {
+							for _, ci := range callsIn(caller) {
+								if ci.Common().StaticCallee() != fn || idx < 0 || idx >= len(ci.Common().Args) {
+									continue
+								}
+								sites++
+								arg := rootOf(ci.Common().Args[idx])
+								ok := false
+								for _, g := range guardsOf(ci.Block()) {
+									bin, isBin := g.Cond.(*ssa.BinOp)
+									if !isBin {
+										continue
+									}
+									var other ssa.Value
+									if k, isK := bin.Y.(*ssa.Const); isK && k.Value == nil {
+										other = bin.X
+									}
+									if other == nil {
+										continue
+									}
+									gl, isPart := partLoadOf(other)
+									if isPart && gl.field == pl.field && gl.base == arg && ((bin.Op == token.NEQ && g.Truth) || (bin.Op == token.EQL && !g.Truth)) {
+										ok = true
+									}
+								}
+								if !ok {
+									all = false
+								}
+							}
+						}
+						if sites > 0 && all {
+							guarded = true
+						}
+					}
+				}
 				if guarded {
 					r.Ok(key, c.Pos(ins.Pos()), "dominated by a nil test of the same part", "guarded")
 				} else {
